@@ -22,6 +22,7 @@ type GenOpts struct {
 	NoBigFiles      bool
 	AvoidClock      []int64 // unix times to keep every legitimate timestamp away from (±2 days)
 	NoHostLinks     bool    // no symlink targets that exist on the build host
+	LinkShapes      bool    // symbolic links among the sources: to a directory of the tree, to a path outside the tree (C07)
 	ManyFilesP      float64 // probability of a tree with hundreds of tiny files (size/count thresholds in compressors)
 	PartialInvalidP float64 // probability that the configuration is invalid for some formats only
 }
@@ -478,6 +479,26 @@ func GenWorldCfg(g *Rng, opt GenOpts) (World, map[string]any) {
 	if x.feat("disk_symlink", 0.3) {
 		x.addLink("src/dlink", "bin/app")
 		add(gContent{m: map[string]any{"src": "@SRC@src/dlink", "dst": "/usr/bin/app-dlink"}, refPath: "src/dlink", refKind: "content", single: true})
+	}
+	if opt.LinkShapes && x.feat("disk_symlink_outside", 0.35) {
+		// links in the source tree that name a path which is not a source: it
+		// lies outside the tree (next to its root, so that each copy of the
+		// tree finds something else there: see OutsideTarget). A link is
+		// shipped as a link; what it points to on the build host is no input.
+		x.addLink("src/links/outlink", "../../../verif-outside/t")
+		x.addFile("src/links/plain.txt", x.sizeSmall(), 0o644)
+		if g.Bool(0.5) && !disableGlob {
+			add(gContent{m: map[string]any{"src": "@SRC@src/links/*", "dst": "/usr/share/links/"}, refPath: "src/links/plain.txt", refKind: "content"})
+		} else {
+			add(gContent{m: map[string]any{"src": "@SRC@src/links/outlink", "dst": "/usr/share/links/outlink"}, refPath: "src/links/plain.txt", refKind: "content", single: true})
+		}
+	}
+	if opt.LinkShapes && x.feat("disk_symlink_to_dir", 0.3) {
+		// the usual "current release" link: names a directory of the tree
+		x.addFile("src/rel/v1/a.txt", x.sizeSmall(), 0o644)
+		x.addFile("src/rel/v1/sub/b.txt", x.sizeSmall(), 0o644)
+		x.addLink("src/rel/current", "v1")
+		add(gContent{m: map[string]any{"src": "@SRC@src/rel/current", "dst": "/usr/share/rel/current"}, refPath: "src/rel/v1/a.txt", refKind: "content", single: true})
 	}
 	if x.feat("odd_names", 0.3) {
 		if disableGlob {
